@@ -50,6 +50,9 @@ type Val struct {
 	S string     `json:"s,omitempty"` // string contents, or the enum value name
 	B bool       `json:"b,omitempty"`
 	L []Val      `json:"l,omitempty"`
+	// NilList: this empty list is configured as a nil Go slice ([]interface{}(nil)) rather than an
+	// empty one: it is still the list with no items (printed `[]`, never `null`).
+	NilList bool `json:"nil_list,omitempty"`
 	O []ObjField `json:"o,omitempty"`
 }
 
@@ -278,6 +281,9 @@ type gen struct {
 	// objDepth: how many input objects enclose the value being generated (0 = an object of the
 	// default's own type, reached through lists only)
 	objDepth int
+	// names: how many names have been made; illegalAt: which of them is an illegal one (-1: none)
+	names, illegalAt int
+	noReserved       bool
 }
 
 // omitNestedDefaults: also leave out defaulted fields of input objects nested inside other input
@@ -351,7 +357,41 @@ func (g *gen) wrappers(max int) string {
 	return string(b)
 }
 
-func (g *gen) name(prefix string, i int) string { return fmt.Sprintf("%s%d", prefix, i) }
+// name makes the i-th name with the given prefix. One case in twenty gets ONE name that the
+// unchanged schema.New refuses (illegalAt = which name request): starting with "__", empty, a digit
+// first, an illegal character, a non-ASCII letter — at whatever position that request happens to be
+// (type, field, argument, input field, directive, directive argument). Such definitions are counted as
+// rejected on the unchanged tree; a tree that accepts them gets every oracle.
+func (g *gen) name(prefix string, i int) string {
+	n := fmt.Sprintf("%s%d", prefix, i)
+	g.names++
+	if g.names-1 == g.illegalAt {
+		switch g.r.Intn(6) {
+		case 0:
+			return "__" + n
+		case 1:
+			return ""
+		case 2:
+			return "9" + n
+		case 3:
+			return n + "-x"
+		case 4:
+			return n + " y"
+		default:
+			return "ñ" + n
+		}
+	}
+	return n
+}
+
+// reservedEnumValue: one enum in twenty-five gets a value named like a keyword literal (`true`, `false`,
+// `null`), which the unchanged EnumType.shallowValidate refuses: printed as a default it would read as
+// a Boolean / Null literal.
+func (g *gen) reservedEnumValue(vs []EnumVal) {
+	if len(vs) > 0 && g.r.Chance(1, 25) && !g.noReserved {
+		vs[g.r.Intn(len(vs))].Name = hx.Pick(g.r, []string{"true", "false", "null"})
+	}
+}
 
 // candidates filters names whose required features fit into allowed.
 func (g *gen) candidates(names []string, allowed []string) []string {
@@ -413,6 +453,11 @@ func (g *gen) inputVal(name string, allowed []string, rank int) InputVal {
 		g.astralOK = !iv.Type.nonNull()
 		v := g.value(iv.Type, 0, true)
 		g.astralOK = false
+		if rank == 1<<30 && v.K == "list" && len(v.L) == 0 && g.r.Chance(1, 3) {
+			// the default of an ARGUMENT (of a field or directive) that is the empty list: configured
+			// as a nil Go slice one time in three — still the list without items, printed `[]`
+			v.NilList = true
+		}
 		iv.Def = &v
 	}
 	return iv
@@ -510,6 +555,10 @@ func (g *gen) value(t TRef, depth int, top bool) Val {
 		for i := 0; i < n; i++ {
 			v.L = append(v.L, g.value(t.inner(), depth+1, false))
 		}
+		// (NilList is only drawn for whole argument defaults, see inputVal: with nil slices as the
+		// defaults of input-object FIELDS the unchanged CoerceLiteral reports "the … field is required"
+		// for omitted non-null fields and fills omitted ones with the nil slice; what the property
+		// demands there is left open — design note, seeded change C10-21)
 		return v
 	}
 	switch g.d.kindOf(t.N) {
@@ -642,9 +691,24 @@ func sortInputs(fs []InputVal) {
 	sort.Slice(fs, func(i, j int) bool { return fs[i].Name < fs[j].Name })
 }
 
+// genSDef draws a definition. One with an illegal name at a position schema.New does not look at
+// (illegalNameUnseen) is drawn again without illegal names.
 func genSDef(r *hx.Rand, o genOpts) *SDef {
+	d := genSDef1(r, o, true)
+	for i := 0; d.illegalNameUnseen() && i < 3; i++ {
+		d = genSDef1(r, o, false)
+	}
+	return d
+}
+
+func genSDef1(r *hx.Rand, o genOpts, illegalNames bool) *SDef {
 	g := &gen{r: r, o: o, d: &SDef{}, feat: []string{"fa", "fb", "fc"}, tfeat: map[string][]string{}, inputRank: map[string]int{}, complete: map[string]bool{}}
 	d := g.d
+	g.illegalAt = -1
+	if r.Chance(1, 20) && illegalNames {
+		g.illegalAt = r.Intn(50)
+	}
+	g.noReserved = !illegalNames
 	d.SharedFeat = r.Bool()
 	d.EmptyContainers = r.Chance(1, 3)
 	small := o.Small
@@ -665,8 +729,9 @@ func genSDef(r *hx.Rand, o genOpts) *SDef {
 		g.enums = append(g.enums, g.name("En", i))
 	}
 	for i, n := 0, cnt(0, 3); i < n; i++ {
-		g.inputs = append(g.inputs, g.name("In", i))
-		g.inputRank[g.name("In", i)] = i
+		in := g.name("In", i) // (one call per name: the call may return the case's illegal name)
+		g.inputs = append(g.inputs, in)
+		g.inputRank[in] = i
 	}
 	for i, n := 0, cnt(0, 3); i < n; i++ {
 		g.ifaces = append(g.ifaces, g.name("If", i))
@@ -727,6 +792,7 @@ func genSDef(r *hx.Rand, o genOpts) *SDef {
 		for i, k := 0, r.Range(1, 4); i < k; i++ {
 			t.Values = append(t.Values, EnumVal{Name: fmt.Sprintf("V%d_%s", i, n), Desc: g.desc(), Depr: g.depr()})
 		}
+		g.reservedEnumValue(t.Values)
 		switch r.Intn(3) {
 		case 0: // string values: the names themselves
 			for i := range t.Values {
@@ -875,6 +941,7 @@ func genSDef(r *hx.Rand, o genOpts) *SDef {
 		}
 	}
 	g.applyUnlisted()
+	g.fewerSelfReferences()
 	// additional types: some of everything (objects reachable only through their interfaces,
 	// unions / enums / inputs nothing else mentions, a built-in scalar)
 	for _, t := range d.Types {
